@@ -13,20 +13,25 @@ Ev == Rec[l]
 Report(name, issues) == PrintT(<<"CASEFAIL", ToJson([line |-> l, ep |-> Ev.ep, clause |-> name, issues |-> issues])>>)
 Clause(name, holds) == IF holds THEN TRUE ELSE Report(name, {})
 
+\* which clauses to evaluate: "all", "doc" (C05: the document) or "roundtrip" (C02: the forest read back)
+Want == IF "CLAUSES" \in DOMAIN IOEnv THEN IOEnv.CLAUSES ELSE "all"
+
 CheckCase ==
     /\ Clause("write", Ev.write = "ok")
     /\ Ev.write = "ok" =>
-          /\ Clause("wellformed", "wellformed" \in DOMAIN Ev /\ Ev.wellformed = 1)
-          /\ ("wellformed" \in DOMAIN Ev /\ Ev.wellformed = 1) =>
-                /\ IF DocInvariants(Ev.doc) THEN TRUE ELSE Report("docinv", BadElements(Ev.doc))
-                /\ DocInvariants(Ev.doc) =>
-                      LET iss == DocIssues(Ev.doc, Ev.before, Ev.enc) IN
-                      IF iss = {} THEN TRUE ELSE Report("docmeans", iss)
-          /\ Clause("read", Ev.read = "ok")
-          /\ Ev.read = "ok" =>
-                /\ Clause("rootclass", Ev.root_class = "DataModel")
-                /\ LET iss == XmlRoundTripIssues(Ev.after, Ev.before, Ev.enc, Ev.dec) IN
-                   IF iss = {} THEN TRUE ELSE Report("roundtrip", iss)
+          /\ Want \in {"all", "doc"} =>
+                /\ Clause("wellformed", "wellformed" \in DOMAIN Ev /\ Ev.wellformed = 1)
+                /\ ("wellformed" \in DOMAIN Ev /\ Ev.wellformed = 1) =>
+                      /\ IF DocInvariants(Ev.doc) THEN TRUE ELSE Report("docinv", BadElements(Ev.doc))
+                      /\ DocInvariants(Ev.doc) =>
+                            LET iss == DocIssues(Ev.doc, Ev.before, Ev.enc) IN
+                            IF iss = {} THEN TRUE ELSE Report("docmeans", iss)
+          /\ Want \in {"all", "roundtrip"} =>
+                /\ Clause("read", Ev.read = "ok")
+                /\ Ev.read = "ok" =>
+                      /\ Clause("rootclass", Ev.root_class = "DataModel")
+                      /\ LET iss == XmlRoundTripIssues(Ev.after, Ev.before, Ev.enc, Ev.dec) IN
+                         IF iss = {} THEN TRUE ELSE Report("roundtrip", iss)
 
 Step == l <= Len(Rec) /\ CheckCase \in BOOLEAN /\ l' = l + 1
 Finish == l = Len(Rec) + 1 /\ PrintT(<<"TRACE_DONE", Len(Rec)>>) /\ l' = l + 1
